@@ -286,9 +286,11 @@ class CallsMixin:
     def call_method(self, obj, name, args, kwargs, fr, awaited):
         ctx = self.ctx
         if isinstance(obj, SymOpt):
-            if ctx.branch(obj.is_none, f"isNone@{fr.line}"):
+            if not fr.spec and ctx.branch(obj.is_none, f"isNone@{fr.line}"):
                 raise mk_exc(AttributeError, f"'NoneType' object has no attribute '{name}'", where=fr.where())
             obj = obj.value
+        if type(obj).__name__ == "Bottom":
+            return obj
         if isinstance(obj, SObj):
             cls = obj.cls
             qn_cls = self.qual_of(cls)
@@ -477,8 +479,8 @@ class CallsMixin:
         if v is None:
             raise mk_exc(TypeError, "len(None)", where=fr.where())
         if isinstance(v, SymAny):
-            tag, val = ops.any_split(self.ctx, v, "len")
-            if tag in ("none", "bool", "int"):
+            tag, val = ops.any_split(self.ctx, v, "len", interesting=("str", "bytes", "seq", "other"))
+            if tag == "rest":
                 raise mk_exc(TypeError, "no len", where=fr.where())
             if tag in ("str", "bytes"):
                 return ops.length(self.ctx, val)
@@ -565,6 +567,8 @@ class CallsMixin:
             return int
         if isinstance(v, SymStr):
             return str if v.kind == "str" else bytes
+        if type(v).__name__ == "SymText":
+            return str
         if isinstance(v, SymBytes):
             return bytes
         if isinstance(v, (PList, SymSeq)):
@@ -641,11 +645,9 @@ class CallsMixin:
         if v is None:
             raise mk_exc(TypeError, "cannot convert 'NoneType' object to bytes", where=fr.where())
         if isinstance(v, SymAny):
-            tag, val = ops.any_split(ctx, v, "bytes()")
-            if tag == "none":
-                raise mk_exc(TypeError, "cannot convert 'NoneType' object to bytes", where=fr.where())
-            if tag == "str":
-                raise mk_exc(TypeError, "string argument without an encoding", where=fr.where())
+            tag, val = ops.any_split(ctx, v, "bytes()", interesting=("bytes", "int", "bool", "seq", "other"))
+            if tag == "rest":
+                raise mk_exc(TypeError, "cannot convert to bytes", where=fr.where())
             if tag == "bytes":
                 return val
             if tag in ("int", "bool"):
@@ -691,10 +693,10 @@ class CallsMixin:
         if v is None:
             raise mk_exc(TypeError, "int() argument must be a string or a number, not 'NoneType'", where=fr.where())
         if isinstance(v, SymAny):
-            tag, val = ops.any_split(ctx, v, "int()")
+            tag, val = ops.any_split(ctx, v, "int()", interesting=("int", "bool", "str", "bytes", "other"))
             if tag in ("int", "bool"):
                 return mk_int(z3_of_int(val))
-            if tag == "none" or tag == "seq":
+            if tag == "rest":
                 raise mk_exc(TypeError, "int() argument", where=fr.where())
             if tag in ("str", "bytes"):
                 if isinstance(val, SymBytes):
@@ -845,12 +847,12 @@ class CallsMixin:
         raise Unsupported(f"method {name} on {obj!r} at {fr.where()}")
 
     def any_method(self, v: SymAny, name, args, kwargs, fr):
-        tag, val = ops.any_split(self.ctx, v, f".{name}")
+        tag, val = ops.any_split(self.ctx, v, f".{name}", interesting=("str", "bytes", "other"))
         if tag in ("str", "bytes"):
             if isinstance(val, SymBytes):
                 return self.payload_method(val, name, args, kwargs, fr)
             return self.str_method(val, name, args, kwargs, fr)
-        if tag in ("none", "bool", "int", "seq"):
+        if tag == "rest":
             raise mk_exc(AttributeError, name, where=fr.where())
         if self.ctx.choose(2, f"{v.name}.{name}", ["ok", "AttributeError"]) == 1:
             raise mk_exc(AttributeError, name, where=fr.where())
